@@ -119,8 +119,9 @@ TFirstUse == /\ Ev.e = "FirstUse"
              /\ UNCHANGED <<vars, ids, sInFac, sCalled, sPending, sIds>>
 \* a factory that loads the name it was asked for itself: one value for the nested call, the outer call and every later one;
 \* a factory that throws: the exception reaches the caller and the loader keeps serialising factory calls afterwards
-TDirected == /\ Ev.e \in {"Reentrant", "AfterThrow"}
-             /\ LET ok == IF Ev.e = "Reentrant" THEN Ev.same = 1 ELSE (Ev.threw = 1 /\ Ev.overlap = 0) IN
+\* threads still loading while the process exits: every load keeps returning the value (and verdict) obtained before
+TDirected == /\ Ev.e \in {"Reentrant", "AfterThrow", "AtExit"}
+             /\ LET ok == IF Ev.e = "Reentrant" THEN Ev.same = 1 ELSE IF Ev.e = "AtExit" THEN Ev.bad = 0 ELSE (Ev.threw = 1 /\ Ev.overlap = 0) IN
                   /\ bad' = IF ok THEN bad ELSE bad + 1
                   /\ IF ok THEN TRUE ELSE Reject(l, Ev.e)
              /\ UNCHANGED <<vars, ids, sInFac, sCalled, sPending, sIds>>
